@@ -64,6 +64,26 @@ def attr_loop_obligations(ctx: Ctx, m: Any, pid: str, want_value: bool) -> None:
                              f"the attribute writer reads module-level mutable state `{e.target}`: output depends on history")
 
 
+def escape_calls_at_defaults(ctx: Ctx, m: Any, pid: str) -> None:
+    """The escape function is decided for its two documented modes; every call of it on the rendering paths leaves any further
+    parameter at its default (an option such as `ascii_only=True` selects a mapping that was not examined)."""
+    leaves = [(TL, r.leaf) for r in m.sib_rows] + [(TG, l) for l in m.frame_leaves] + [(TG, a["leaf"]) for a in m.attr_rows]
+    n = 0
+    bad = set()
+    for where, l in leaves:
+        for e in getattr(l, "effects", []):
+            if e.kind != "escape":
+                continue
+            n += 1
+            if "+" in str(e.key) and (where, str(e.key)) not in bad:
+                bad.add((where, str(e.key)))
+                ctx.fail(f"{pid}.E5", where, f"html_escape(..., {str(e.key).split('+', 1)[1]})",
+                         f"text is escaped by html_escape with a non-default option ({str(e.key).split('+', 1)[1]}): the characters it writes are not the "
+                         f"mapping of the {str(e.key).split('+')[0]} mode that decodes back to the stored text", line=getattr(e.node, "lineno", None))
+    if not bad:
+        ctx.ok(f"{pid}.E5", "every html_escape call on the rendering paths uses only the text/attribute switch", calls=n)
+
+
 def check(ctx: Ctx) -> None:
     ctx.explanation = (
         "Over the element frame and sibling transducer extracted by Engine A: every non-raising path of "
@@ -133,3 +153,4 @@ def check(ctx: Ctx) -> None:
     attr_loop_obligations(ctx, m, "C01", want_value=True)
     # values and text decode: escape function in both modes
     check_escape_function(ctx, ["text", "attr"], "C01")
+    escape_calls_at_defaults(ctx, m, "C01")
